@@ -49,6 +49,10 @@ func main() {
 		workerMain(os.Args[2:])
 		return
 	}
+	if id == "c14cold" {
+		c14ColdChild(os.Args[2])
+		return
+	}
 	c, ok := checks[id]
 	if !ok {
 		fmt.Printf("BROKEN-CHECK property=%s no such check\n", id)
